@@ -80,6 +80,25 @@ Proof.
   destruct (memN (id r) l); [apply dummy_set_st| reflexivity].
 Qed.
 
+(* what Add does to the tip, for ANY work value: an orphan never moves it; a child of the tip always becomes the
+   tip (no work comparison - this is where zero-work headers depart from the specification); any other connected
+   header becomes the tip iff its cumulative work is strictly greater *)
+Definition tip_rule (s : store) (tip : N) (r : row) : N :=
+  if orph r then tip
+  else if N.eqb (prev r) tip then id r
+  else match by_hash s tip with
+       | Some t => if cum t <? cum r then id r else tip
+       | None => tip
+       end.
+
+Lemma tip_rule_orph s tip r : orph r = true -> tip_rule s tip r = tip.
+Proof. intros H. unfold tip_rule. rewrite H. reflexivity. Qed.
+Lemma tip_rule_ext s tip r : orph r = false -> prev r = tip -> tip_rule s tip r = id r.
+Proof. intros H E. unfold tip_rule. rewrite H, E, N.eqb_refl. reflexivity. Qed.
+Lemma tip_rule_cmp s tip r t : orph r = false -> prev r <> tip -> by_hash s tip = Some t ->
+  tip_rule s tip r = if cum t <? cum r then id r else tip.
+Proof. intros H E Ht. unfold tip_rule. rewrite H, Ht. destruct (N.eqb_spec (prev r) tip); [contradiction| reflexivity]. Qed.
+
 (* ---- one submission ---- *)
 Theorem add_inv_gen f s tip h :
   Inv s tip -> s_id h <> 0%N -> by_hash s (s_id h) = None -> memN (s_id h) f = false ->
@@ -87,7 +106,8 @@ Theorem add_inv_gen f s tip h :
                     Inv (set_st x (create_header s h) :: s2) tip' /\
                     (best s = by_hash s tip -> 0 < calc_work (p_bits (s_pl h)) ->
                      best (set_st x (create_header s h) :: s2) = by_hash (set_st x (create_header s h) :: s2) tip') /\
-                    map dummy s2 = map dummy s.
+                    map dummy s2 = map dummy s /\
+                    tip' = tip_rule s tip (create_header s h).
 Proof.
   intros HI Hz Hnew Hnf. pose proof HI as (Hwf & (t & Ht & Hto) & Hl).
   pose proof (by_hash_none s (s_id h) Hnew) as Hfresh.
@@ -107,9 +127,10 @@ Proof.
   { intros r E. unfold by_hash. cbn. rewrite E. destruct (N.eqb_spec hid tip); [contradiction| reflexivity]. }
   destruct p as [p0|] eqn:Ep; subst p.
   2:{ (* unknown parent: orphan *)
-    cbn [negb st r0]. exists s, Orphan, tip. change (set_st Orphan r0) with r0. split; [reflexivity|]. split; [|split; [|reflexivity]].
+    cbn [negb st r0]. exists s, Orphan, tip. change (set_st Orphan r0) with r0. split; [reflexivity|]. split; [|split; [|split; [reflexivity|]]].
     - apply insert_keep; auto. unfold row_ok. cbn [prev r0]. rewrite Ep. cbn. auto.
-    - intros Hbest Hw. try unfold HB in Hbest. cbn [best]. cbn [orph r0 st_eqb]. rewrite (Hbh_cons r0 eq_refl). rewrite Hbest, Ht. reflexivity. }
+    - intros Hbest Hw. try unfold HB in Hbest. cbn [best]. cbn [orph r0 st_eqb]. rewrite (Hbh_cons r0 eq_refl). rewrite Hbest, Ht. reflexivity.
+    - symmetry. apply tip_rule_orph. reflexivity. }
   destruct (by_hash_in _ _ _ Ep) as [Hp0in Hp0id].
   assert (Hok: row_ok s r0).
   { unfold row_ok. cbn [prev r0]. rewrite Ep. cbn [orph height cum work r0]. repeat split.
@@ -117,10 +138,10 @@ Proof.
     - destruct (orph p0) eqn:Eo; [|reflexivity]. apply (st_O_iff s tip p0 HI Hp0in) in Eo. congruence.
     - destruct (orph p0) eqn:Eo; [|reflexivity]. apply (st_O_iff s tip p0 HI Hp0in) in Eo. congruence.
     - apply (st_O_iff s tip p0 HI Hp0in). exact E. }
-  assert (Hreorg: orph p0 = false -> orph r0 = false -> cum t <? cum r0 = true ->
+  assert (Hreorg: orph p0 = false -> orph r0 = false -> hprev <> tip -> cum t <? cum r0 = true ->
      let s2 := update_state (update_state s (ids (longest_from s (min_height (stale_back s hprev) (height r0)))) Stale) (ids (stale_back s hprev)) Longest in
-     Inv (set_st Longest r0 :: s2) hid /\ (best s = by_hash s tip -> 0 < w -> best (set_st Longest r0 :: s2) = by_hash (set_st Longest r0 :: s2) hid) /\ map dummy s2 = map dummy s).
-  { intros Horph0 Hro Ecmp s2. split; [|split].
+     Inv (set_st Longest r0 :: s2) hid /\ (best s = by_hash s tip -> 0 < w -> best (set_st Longest r0 :: s2) = by_hash (set_st Longest r0 :: s2) hid) /\ map dummy s2 = map dummy s /\ hid = tip_rule s tip r0).
+  { intros Horph0 Hro Hpne Ecmp s2. split; [|split; [|split]].
     - exact (reorg_inv s tip p0 r0 HI Ep Horph0 Hfresh Hz Hok Hro).
     - intros Hbest Hw. try unfold HB in Hbest. cbn [best]. unfold s2, update_state. rewrite !(best_map _ _ (same_struct_upd _ _)), Hbest, Ht.
       cbn [option_map orph set_st]. rewrite Hro.
@@ -128,7 +149,8 @@ Proof.
       match goal with |- (if ?c then _ else _) = _ => replace c with true; [reflexivity|] end.
       symmetry. rewrite <- Ecmp.
       destruct (memN (id t) _); cbn; destruct (memN (id t) _); reflexivity.
-    - unfold s2. rewrite !dummy_update. reflexivity. }
+    - unfold s2. rewrite !dummy_update. reflexivity.
+    - rewrite (tip_rule_cmp s tip r0 t Hro Hpne Ht), Ecmp. reflexivity. }
   cbn [st r0].
   destruct (st p0) eqn:Est.
   - (* parent on the longest chain *)
@@ -139,16 +161,21 @@ Proof.
     destruct (has_L_at s (height p0 + 1)) eqn:Ehas; cbn [negb].
     + (* a competing longest header exists at that height *)
       rewrite (tipB_is_tip s tip HI), Ht.
+      assert (Hpne: hprev <> tip).
+      { intro E. rewrite E in Ep. assert (Ept: p0 = t) by congruence. subst p0.
+        unfold has_L_at in Ehas. apply existsb_exists in Ehas. destruct Ehas as (y & Hy & Hpy).
+        apply andb_prop in Hpy. destruct Hpy as [H1 H2]. apply st_eqb_eq in H1. apply Z.eqb_eq in H2.
+        destruct (tip_height_max s tip t HI Ht y Hy H1) as [->|Hlt]; lia. }
       destruct (cum t <? cum r0) eqn:Ecmp.
-      * eexists _, Longest, hid. split; [reflexivity|]. exact (Hreorg Horph0 Hro eq_refl).
-      * exists s, Stale, tip. split; [reflexivity|]. split; [|split; [|reflexivity]].
+      * eexists _, Longest, hid. split; [reflexivity|]. exact (Hreorg Horph0 Hro Hpne eq_refl).
+      * exists s, Stale, tip. split; [reflexivity|]. split; [|split; [|split; [reflexivity|]]]; [| |rewrite (tip_rule_cmp s tip r0 t Hro Hpne Ht), Ecmp; reflexivity].
         -- apply insert_keep; auto; try reflexivity.
         -- intros Hbest Hw. try unfold HB in Hbest. cbn [best]. cbn [orph set_st cum]. rewrite Hro. rewrite (Hbh_cons (set_st Stale r0) eq_refl), Hbest, Ht.
            rewrite Ecmp. reflexivity.
     + (* nothing above the parent: it is the tip, the header extends it *)
       pose proof (parent_is_tip s tip p0 HI Hp0in Est Ehas) as Hpt.
       exists s, Longest, hid. replace (set_st Longest r0) with r0 by reflexivity.
-      split; [reflexivity|]. split; [|split; [|reflexivity]].
+      split; [reflexivity|]. split; [|split; [|split; [reflexivity|]]]; [| |symmetry; apply tip_rule_ext; [exact Hro| cbn [prev r0]; congruence]].
       * apply (insert_extend s tip r0 HI Hfresh Hz Hok); [cbn; congruence| reflexivity| exact Hro].
       * intros Hbest Hw. try unfold HB in Hbest. cbn [best]. rewrite Hro. rewrite Hbest, Ht. unfold by_hash at 1. cbn [find id r0]. rewrite N.eqb_refl.
         assert (Hpt': p0 = t).
@@ -161,16 +188,19 @@ Proof.
     assert (Horph0: orph p0 = false).
     { destruct (orph p0) eqn:Eo; [|reflexivity]. apply (st_O_iff s tip p0 HI Hp0in) in Eo. congruence. }
     assert (Hro: orph r0 = false) by reflexivity.
+    assert (Hpne: hprev <> tip).
+    { intro E. rewrite E in Ep. assert (Ept: p0 = t) by congruence. subst p0.
+      destruct (tip_is_L s tip t HI Ht) as [_ HtL]. congruence. }
     destruct (cum t <? cum r0) eqn:Ecmp.
-    + eexists _, Longest, hid. split; [reflexivity|]. exact (Hreorg Horph0 Hro eq_refl).
+    + eexists _, Longest, hid. split; [reflexivity|]. exact (Hreorg Horph0 Hro Hpne eq_refl).
     + exists s, Stale, tip. replace (set_st Stale r0) with r0 by reflexivity.
-      split; [reflexivity|]. split; [|split; [|reflexivity]].
+      split; [reflexivity|]. split; [|split; [|split; [reflexivity|]]]; [| |rewrite (tip_rule_cmp s tip r0 t Hro Hpne Ht), Ecmp; reflexivity].
       * apply insert_keep; auto; try reflexivity.
       * intros Hbest Hw. try unfold HB in Hbest. cbn [best]. rewrite Hro. rewrite (Hbh_cons r0 eq_refl), Hbest, Ht.
         rewrite Ecmp. reflexivity.
   - (* parent orphan *)
     cbn [negb]. exists s, Orphan, tip. replace (set_st Orphan r0) with r0 by reflexivity.
-    split; [reflexivity|]. split; [|split; [|reflexivity]].
+    split; [reflexivity|]. split; [|split; [|split; [reflexivity|]]]; [| |symmetry; apply tip_rule_orph; reflexivity].
     + apply insert_keep; auto; try reflexivity.
     + intros Hbest Hw. try unfold HB in Hbest. cbn [best]. cbn [orph r0 st_eqb]. rewrite (Hbh_cons r0 eq_refl). rewrite Hbest, Ht. reflexivity.
 Qed.
@@ -181,7 +211,7 @@ Corollary add_inv f s tip h :
   exists s2 x tip', add f s h = (set_st x (create_header s h) :: s2, Stored x) /\
                     Inv (set_st x (create_header s h) :: s2) tip' /\ map dummy s2 = map dummy s.
 Proof.
-  intros HI Hz Hnew Hnf. destruct (add_inv_gen f s tip h HI Hz Hnew Hnf) as (s2 & x & tip' & E & HI' & _ & Hd).
+  intros HI Hz Hnew Hnf. destruct (add_inv_gen f s tip h HI Hz Hnew Hnf) as (s2 & x & tip' & E & HI' & _ & Hd & _).
   exists s2, x, tip'. auto.
 Qed.
 
@@ -192,6 +222,6 @@ Corollary add_inv2 f s tip h :
                     Inv2 (set_st x (create_header s h) :: s2) tip' /\
                     map dummy s2 = map dummy s.
 Proof.
-  intros [HI Hbest] Hw Hz Hnew Hnf. destruct (add_inv_gen f s tip h HI Hz Hnew Hnf) as (s2 & x & tip' & E & HI' & Hb & Hd).
+  intros [HI Hbest] Hw Hz Hnew Hnf. destruct (add_inv_gen f s tip h HI Hz Hnew Hnf) as (s2 & x & tip' & E & HI' & Hb & Hd & _).
   exists s2, x, tip'. split; [exact E|]. split; [split; [exact HI'| exact (Hb Hbest Hw)]| exact Hd].
 Qed.
